@@ -17,15 +17,17 @@ func init() {
 	register(&Property{
 		ID:        "C16",
 		Title:     "IP set sync converges and never breaks rules that use a set",
-		Technique: "static analysis: SSA ordering of go statements / WaitGroup joins, who-may-destroy ownership, cut-set guard analysis, nil-error-edge analysis of deltatracker Iter closures (go/ssa over felix/ipsets and felix/dataplane/linux)",
+		Technique: "static analysis: SSA ordering of go statements / WaitGroup joins, who-may-destroy ownership, cut-set guard analysis, nil-error-edge analysis of deltatracker Iter closures, append-only accumulator flow + all-paths coverage of the restore failure handler, mutator -> updateDirtiness all-paths coverage with inputs derived from the predicate's field reads (go/ssa over felix/ipsets and felix/dataplane/linux)",
 		DesignRef: "DESIGN.md §3 C16",
 		Explanation: "Decides structural clauses of the property: (phase) in InternalDataplane.apply every goroutine that runs IPSetsDataplane.ApplyUpdates is joined (WaitGroup.Wait on the group it Done()s after the call) before anything that runs Table.Apply/CleanupTable.CleanUp starts, those are joined before any goroutine running ApplyDeletions starts, and all are joined before apply returns; " +
 			"(destroy) the `ipset destroy` command is built in exactly one function, which is called only from closures iterating PendingDeletions() of the programmed-metadata tracker with the iterated name, and inside ApplyUpdates only under IsTempIPSetName; " +
 			"(own) names read from `ipset list -name` are kept only under IPVersionConfig.OwnsIPSet; " +
 			"(swap) writeUpdates only emits create/add/del/swap lines, create/add/del always address the target variable which is a fresh temporary name exactly when the metadata-differs condition holds, and the swap line is emitted under that same condition after all other lines; " +
 			"(commit) tracked metadata is recorded only behind the nil check of the write error made after the last line, the dirty set is cleared only after the whole restore session reported no error; " +
-			"(iteraction) Iter closures return IterActionUpdateDataplane only on the nil-error edge of their fallible call.",
-		NotDecided: "Convergence arithmetic (that the delta computed by the tracker is the right one); the kernel's swap atomicity; correctness of OwnsIPSet/IsTempIPSetName themselves; the nftables IP set implementation.",
+			"(iteraction) Iter closures return IterActionUpdateDataplane only on the nil-error edge of their fallible call; " +
+			"(requeue) in every function driving a restore session, each return reachable after a writeUpdates call either passed the nil check of the session error or ran a loop that re-queues at resyncPriMust a collection which append-only records (before the write) every set name handed to writeUpdates; " +
+			"(dirty) the inputs of the dirtiness predicate are derived from the IPSets fields updateDirtiness reads: every store to a whole-plane input (the needed-set filter) is followed on every path by updateDirtiness(k) for every key of a set-name map, and every Desired()-side mutation of a member tracker taken from the tracker map under key k is followed on every path by updateDirtiness(k) (in the function or, for helpers, at each of its call sites).",
+		NotDecided: "Dataplane()-side mutations of member trackers (writeUpdates, resync, ApplyDeletions) are reconciled by the session commit / resync paths, not by updateDirtiness, and are not part of (dirty); in-place mutation of the filter set by its owner after SetFilter; that resyncIPSet really re-reads a re-queued set. Convergence arithmetic (that the delta computed by the tracker is the right one); the kernel's swap atomicity; correctness of OwnsIPSet/IsTempIPSetName themselves; the nftables IP set implementation.",
 		Assumptions: []string{
 			"go/types + go/ssa (x/tools v0.50.0) model of the current source, CGO_ENABLED=0 build",
 			"sync.WaitGroup Add/Done/Wait semantics; logrus Panic*/Fatal* do not return",
@@ -63,6 +65,20 @@ func init() {
 				Old: "firstNonNilErr(writeErr, commitErr, flushErr, closeErr, processErr)", New: "firstNonNilErr(writeErr, commitErr, flushErr, closeErr)", Expect: "C16.commit/IPSets.tryUpdates/dirty-clear"},
 			{Name: "temp-set deletion failure recorded as deleted", File: "felix/ipsets/ipsets.go",
 				Old: "Warning(\"Failed to delete temp IP set. Will retry...\")\n\t\t\treturn deltatracker.IterActionNoOp", New: "Warning(\"Failed to delete temp IP set. Will retry...\")\n\t\t\treturn deltatracker.IterActionUpdateDataplane", Expect: "C16.iteraction/IPSets.tryTempIPSetDeletions/PendingDeletions/deleteIPSet"},
+			{Name: "write error: only the last-touched set is re-queued", File: "felix/ipsets/ipsets.go",
+				Old: "\t\tfor _, setName := range touchedIPSets {\n\t\t\ts.resyncQueue.Add(setName, resyncPriMust)\n", New: "\t\tif writeErr != nil {\n\t\t\ttouchedIPSets = touchedIPSets[len(touchedIPSets)-1:]\n\t\t}\n\t\tfor _, setName := range touchedIPSets {\n\t\t\ts.resyncQueue.Add(setName, resyncPriMust)\n", Expect: "C16.requeue/IPSets.tryUpdates/covers-written"},
+			{Name: "set name recorded only after its write succeeded", File: "felix/ipsets/ipsets.go",
+				Old: "\t\ttouchedIPSets = append(touchedIPSets, setName)\n\t\twriteErr = s.writeUpdates(setName, stdin, listener)\n\t\tif writeErr != nil {\n\t\t\tbreak\n\t\t}\n", New: "\t\twriteErr = s.writeUpdates(setName, stdin, listener)\n\t\tif writeErr != nil {\n\t\t\tbreak\n\t\t}\n\t\ttouchedIPSets = append(touchedIPSets, setName)\n", Expect: "C16.requeue/IPSets.tryUpdates/covers-written"},
+			{Name: "sets re-queued only when the restore process reported an error", File: "felix/ipsets/ipsets.go",
+				Old: "\t\tfor _, setName := range touchedIPSets {\n\t\t\ts.resyncQueue.Add(setName, resyncPriMust)\n\t\t}\n", New: "\t\tif processErr != nil {\n\t\t\tfor _, setName := range touchedIPSets {\n\t\t\t\ts.resyncQueue.Add(setName, resyncPriMust)\n\t\t\t}\n\t\t}\n", Expect: "C16.requeue/IPSets.tryUpdates/on-every-failure"},
+			{Name: "failed session re-queued at background priority", File: "felix/ipsets/ipsets.go",
+				Old: "s.resyncQueue.Add(setName, resyncPriMust)", New: "s.resyncQueue.Add(setName, resyncPriBackground)", Expect: "C16.requeue/IPSets.tryUpdates/priority"},
+			{Name: "SetFilter re-evaluates dirtiness only for sets it filters out", File: "felix/ipsets/ipsets.go",
+				Old: "\t\t\ts.setNameToProgrammedMetadata.Desired().Delete(name)\n\t\t}\n\t\ts.updateDirtiness(name)\n", New: "\t\t\ts.setNameToProgrammedMetadata.Desired().Delete(name)\n\t\t\ts.updateDirtiness(name)\n\t\t}\n", Expect: "C16.dirty/IPSets.SetFilter/neededIPSetNames"},
+			{Name: "RemoveMembers does not re-evaluate dirtiness", File: "felix/ipsets/ipsets.go",
+				Old: "\t\tmembersTracker.Desired().Delete(member)\n\t}\n\ts.updateDirtiness(setName)\n", New: "\t\tmembersTracker.Desired().Delete(member)\n\t}\n", Expect: "C16.dirty/IPSets.RemoveMembers/desired.Delete"},
+			{Name: "AddOrReplaceIPSet re-evaluates dirtiness only when new members remain", File: "felix/ipsets/ipsets.go",
+				Old: "\t\tdesiredMembers.Add(m)\n\t}\n\ts.updateDirtiness(mainIPSetName)\n", New: "\t\tdesiredMembers.Add(m)\n\t}\n\tif canonMembers.Len() > 0 {\n\t\ts.updateDirtiness(mainIPSetName)\n\t}\n", Expect: "C16.dirty/IPSets.AddOrReplaceIPSet/desired.Delete"},
 			{Name: "member add recorded although the write failed", File: "felix/ipsets/ipsets.go",
 				Old: "\t\t\treturn deltatracker.IterActionNoOpStopIteration\n\t\t}\n\t\tif listener != nil {", New: "\t\t\treturn deltatracker.IterActionUpdateDataplane\n\t\t}\n\t\tif listener != nil {", Expect: "C16.iteraction/IPSets.writeUpdates/PendingUpdates/closure-call"},
 		},
@@ -437,11 +453,16 @@ func c16IPSets(c *Ctx) {
 	c.Rule("C16.swap", "E-ORDER/E-FLOW", "writeUpdates: only create/add/del/swap lines; create/add/del address the target variable, which is a fresh temp name iff the metadata-differs condition; create precedes add/del; swap(main,target) last and only under that condition", 9)
 	c.Rule("C16.commit", "E-ERR", "tracked metadata recorded only behind the nil check of the write error made after the last line; dirty set cleared only after the whole restore session reported no error", 3)
 
+	c.Rule("C16.requeue", "E-FLOW/E-ERR", "restore session driver: on every path where the session error was not checked nil, a collection that append-only records every name handed to writeUpdates (before the write) is re-queued at resyncPriMust", 3)
+	c.Rule("C16.dirty", "E-FLOW/E-ORDER", "every store to a whole-plane input of updateDirtiness (fields it reads) is followed on every path by updateDirtiness(k) for every key of a set-name map; every Desired()-side mutation of a member tracker taken under key k is followed on every path by updateDirtiness(k)", 6)
+
 	p := c.Load(c16IPSetsPkg)
 	sites, _ := c17CheckIterAction(c, p, "C16.iteraction", c16IPSetsPkg)
 	c16Destroy(c, p, sites)
 	c16Own(c, p)
 	c16Swap(c, p)
+	c16Requeue(c, p, c16WriterFn(c, p))
+	c16Dirty(c, p)
 }
 
 // c16VariadicElems returns the elements of a variadic argument slice built at
@@ -729,13 +750,13 @@ type c16LineEvent struct {
 	Pos   ssa.Instruction // position in writeUpdates' own body (the Iter call for lines written from closures)
 }
 
-func c16Swap(c *Ctx, p *Prog) {
-	// writeUpdates = the method of IPSets that has an io.Writer parameter.
+// c16WriterFn: writeUpdates = the method of IPSets that has an io.Writer parameter.
+func c16WriterFn(c *Ctx, p *Prog) *ssa.Function {
 	var W *ssa.Function
 	for _, m := range p.methodsOf(c16IPSetsPkg, "IPSets") {
 		for _, pa := range m.Params {
 			if qualTypeName(pa.Type()) == "io.Writer" {
-				if W != nil {
+				if W != nil && W != m {
 					c.Lost("more than one IPSets method takes an io.Writer")
 				}
 				W = m
@@ -745,6 +766,11 @@ func c16Swap(c *Ctx, p *Prog) {
 	if W == nil {
 		c.Lost("no IPSets method takes an io.Writer (writeUpdates)")
 	}
+	return W
+}
+
+func c16Swap(c *Ctx, p *Prog) {
+	W := c16WriterFn(c, p)
 	var setName *ssa.Parameter
 	for _, pa := range W.Params[1:] {
 		if b, ok := pa.Type().Underlying().(*types.Basic); ok && b.Kind() == types.String {
@@ -1083,46 +1109,7 @@ func c16CommitSession(c *Ctx, p *Prog, W *ssa.Function) {
 			}
 			n++
 			key := "C16.commit/" + fnName(fn) + "/dirty-clear"
-			covers := func(x ssa.Value) bool {
-				if !c17IsErrorType(x.Type()) {
-					return false
-				}
-				// collect the calls feeding x, looking through one aggregating call
-				feeds := map[string]bool{}
-				var visit func(v ssa.Value, depth int)
-				visit = func(v ssa.Value, depth int) {
-					for _, o := range origins(v, nil) {
-						call, ok := o.V.(*ssa.Call)
-						if !ok {
-							continue
-						}
-						cc := call.Common()
-						if cc.StaticCallee() == W {
-							feeds["write"] = true
-							continue
-						}
-						if f := calleeOf(cc); f != nil && f.Name() == "Wait" && cc.IsInvoke() && qualTypeName(cc.Value.Type()) == c16IPSetsPkg+".CmdIface" {
-							feeds["wait"] = true
-							continue
-						}
-						if depth == 0 {
-							for _, a := range cc.Args {
-								if els, ok := c16VariadicElems(a); ok && len(els) > 0 {
-									for _, e := range els {
-										if c17IsErrorType(e.Type()) {
-											visit(e, 1)
-										}
-									}
-								} else if c17IsErrorType(a.Type()) {
-									visit(a, 1)
-								}
-							}
-						}
-					}
-				}
-				visit(x, 0)
-				return feeds["write"] && feeds["wait"]
-			}
+			covers := c16SessionErr(W)
 			c.Check(guardedCut(cs.Instr, c17NilEdge(covers)), key, p.Pos(cs.Instr.Pos()),
 				"dirty set cleared only behind the nil check of an error covering the line writes and the restore exit status",
 				fnName(fn)+" clears ipSetsWithDirtyMembers on a path where the error covering the restore-line writes and cmd.Wait() was not checked to be nil: failed updates would never be retried")
